@@ -1412,7 +1412,7 @@ int safec_vsnprintf_s(out_fct_type out, const char *funcname, char *buffer,
                     return len;
                 }
                 wstr[len] = '\0';
-                memcpy(buffer, wstr, len + 1);
+                l = (unsigned int)len; /* the width counts bytes */
 #else
                 char msg[80];
                 snprintf(msg, sizeof msg, "%s: unsupported %%lc arg", funcname);
